@@ -32,6 +32,8 @@ def run(target, rest):
         return selftest_determinism(rest)
     if target == 'selftest-mutants':
         return selftest_mutants(rest)
+    if target == 'selftest-refactors':
+        return selftest_refactors(rest)
     if target == 'selftest-setup':
         return selftest_codec()
     log('unknown selftest %s' % target)
@@ -270,3 +272,70 @@ def selftest_mutants(rest):
     log('selftest-mutants: %d/%d caught' % (len(results) - len(missed),
                                             len(results)))
     return 0 if not missed else 1
+
+
+# ---------------------------------------------------------------------------
+
+def selftest_refactors(rest):
+    """Specificity: every patch in /verif/refactors/<prop>-rN/ is a
+    behaviour-preserving re-implementation written by a sub-agent that knew
+    only the property text; the property's quick check, run against a scratch
+    copy with the patch applied, must exit 0 (no alarm)."""
+    only = None
+    for a in rest:
+        if a.startswith('--only='):
+            only = a[7:].split(',')
+    results = []
+    t0 = time.time()
+    for d in sorted(glob.glob(os.path.join(core.VERIF_DIR, 'refactors', '*'))):
+        name = os.path.basename(d)
+        prop = name.split('-')[0]
+        patch = os.path.join(d, 'patch.diff')
+        if not os.path.exists(patch) or prop not in registry.CHECKS:
+            continue
+        if only and not any(o in name for o in only):
+            continue
+        scratch = tempfile.mkdtemp(prefix='picosim-refactor-')
+        try:
+            dst = os.path.join(scratch, 'repo')
+            shutil.copytree(core.REPO, dst, symlinks=True,
+                            ignore=shutil.ignore_patterns(
+                                '.git', '__pycache__', '*.pyc',
+                                '.pytest_cache', '*.egg-info'))
+            ap = subprocess.run(['patch', '-p1', '-s', '-d', dst, '-i', patch],
+                                stdout=subprocess.PIPE,
+                                stderr=subprocess.STDOUT)
+            if ap.returncode != 0:
+                results.append({'refactor': name, 'property': prop,
+                                'status': 'patch-failed'})
+                log('selftest-refactors: %-12s patch does not apply' % name)
+                continue
+            env = dict(os.environ)
+            env.update({'PICOSIM_REPO': dst, 'PICOSIM_NO_DET': '1',
+                        'PICOSIM_EVIDENCE_DIR': os.path.join(scratch, 'ev'),
+                        'PICOSIM_REPLAY_DIR': os.path.join(scratch, 'rp')})
+            t1 = time.time()
+            p = subprocess.run(
+                [sys.executable,
+                 os.path.join(core.VERIF_DIR, 'picosim', 'main.py'), prop,
+                 '--tier', 'quick'], env=env, stdout=subprocess.PIPE,
+                stderr=subprocess.STDOUT, timeout=3600)
+            out = p.stdout.decode('utf-8', 'replace')
+            st = {0: 'quiet', 1: 'FALSE-ALARM', 2: 'harness-error'}.get(
+                p.returncode, 'exit-%d' % p.returncode)
+            results.append({'refactor': name, 'property': prop, 'status': st,
+                            'wall_s': round(time.time() - t1, 1)})
+            log('selftest-refactors: %-12s %s' % (name, st))
+            if p.returncode:
+                log(out[-1500:])
+        finally:
+            shutil.rmtree(scratch, ignore_errors=True)
+    os.makedirs(core.EVIDENCE_DIR, exist_ok=True)
+    with open(os.path.join(core.EVIDENCE_DIR, 'specificity.json'), 'w') as fh:
+        json.dump({'results': results,
+                   'wall_s': round(time.time() - t0, 1)}, fh, indent=1,
+                  sort_keys=True)
+    bad = [r for r in results if r['status'] != 'quiet']
+    log('selftest-refactors: %d/%d quiet' % (len(results) - len(bad),
+                                             len(results)))
+    return 0 if not bad else 1
